@@ -55,7 +55,7 @@ pub fn run(_args: &[String]) {
             }
             for in_reader in [false, true] {
                 for action in ["accept", "promote", "replace"] {
-                    for pop in ["value", "notfound", "error"] {
+                    for pop in ["same", "diff", "notfound", "error"] {
                         for checker in [false, true] {
                             evals += 1;
                             let root = tempfile::tempdir().unwrap();
@@ -107,37 +107,62 @@ pub fn run(_args: &[String]) {
                                     }
                                 },
                                 |dst, _old| match pop {
-                                    "value" => dst.write_all(b"AAAA"),
+                                    "same" => dst.write_all(b"AAAA"),
+                                    "diff" => dst.write_all(b"BBBB"),
                                     "notfound" => Err(Error::new(ErrorKind::NotFound, "nf")),
                                     _ => Err(Error::new(ErrorKind::Other, "boom")),
                                 },
                             );
                             let after = count_named(&wdir, name);
                             let hit = in_writer || in_reader;
+                            let keeps_hit = hit && action != "replace";
+                            let populated: &[u8] = if pop == "diff" { b"BBBB" } else { b"AAAA" };
                             let mut problem: Option<String> = None;
-                            if let Ok(mut f) = res {
-                                if f.seek(SeekFrom::Current(0)).unwrap() != 0 {
-                                    problem = Some("returned handle is not at offset 0".into());
+                            // when must the call fail?
+                            let must_fail = if keeps_hit {
+                                checker && (pop == "diff" || pop == "error")
+                            } else {
+                                pop == "notfound" || pop == "error"
+                            };
+                            let must_succeed = !must_fail;
+                            match res {
+                                Err(_) if must_succeed => problem = Some("the call failed although nothing was wrong".into()),
+                                Err(_) => {}
+                                Ok(_) if must_fail => {
+                                    problem = Some(if keeps_hit {
+                                        "the call succeeded although the hit differs from the populated value, or populate failed".into()
+                                    } else {
+                                        "the call succeeded although populate failed".into()
+                                    })
                                 }
-                                let mut s = Vec::new();
-                                f.read_to_end(&mut s).unwrap();
-                                if s != b"AAAA" {
-                                    problem = Some("returned handle does not read the whole value".into());
-                                }
-                                if hit && judged != Some(in_writer) {
-                                    problem = Some("hit kind passed to the judge is wrong".into());
-                                }
-                                if hit && action == "accept" && after != before {
-                                    problem = Some("Accept changed the write cache".into());
-                                }
-                                if hit && action == "promote" && !in_writer && writer != "none" && after == 0 {
-                                    problem = Some("Promote of a read-only hit left no copy in the write cache".into());
-                                }
-                                if !all_named_are(&wdir, name, b"AAAA") {
-                                    problem = Some("the write cache holds a copy that is not the whole value".into());
-                                }
-                                if (action == "replace" || !hit) && writer != "none" && after == 0 {
-                                    problem = Some("populated value was not stored in the write cache".into());
+                                Ok(mut f) => {
+                                    let want: &[u8] = if keeps_hit { b"AAAA" } else { populated };
+                                    if f.seek(SeekFrom::Current(0)).unwrap() != 0 {
+                                        problem = Some("returned handle is not at offset 0".into());
+                                    }
+                                    let mut s = Vec::new();
+                                    f.read_to_end(&mut s).unwrap();
+                                    if problem.is_none() && s != want {
+                                        problem = Some("returned handle does not read the expected whole value".into());
+                                    }
+                                    if (keeps_hit || writer != "none") && f.write(b"x").is_ok() {
+                                        problem = Some("a handle on cached data is writable".into());
+                                    }
+                                    if hit && judged != Some(in_writer) {
+                                        problem = Some("hit kind passed to the judge is wrong".into());
+                                    }
+                                    if hit && action == "accept" && after != before {
+                                        problem = Some("Accept changed the write cache".into());
+                                    }
+                                    if hit && action == "promote" && !in_writer && writer != "none" && after == 0 {
+                                        problem = Some("Promote of a read-only hit left no copy in the write cache".into());
+                                    }
+                                    if keeps_hit && !all_named_are(&wdir, name, b"AAAA") {
+                                        problem = Some("the write cache holds a copy that is not the whole value".into());
+                                    }
+                                    if !keeps_hit && writer != "none" && (after == 0 || !all_named_are(&wdir, name, populated)) {
+                                        problem = Some("populated value was not stored in the write cache".into());
+                                    }
                                 }
                             }
                             if let Some(what) = problem {
